@@ -213,7 +213,9 @@ PROPS = {
                    "announced length (no underflow); read_exact only appends, in order, exactly the bytes it removes from the frames and never "
                    "panics given what the dispatcher can deliver; a new transient stream starts from a clean state (no cached bytes, CLOSE "
                    "flag reset), and it hands out exactly the front of the stream's pending bytes (cached frame ++ what the FIFO channel still "
-                   "holds before the next CLOSE) and leaves the rest pending -- no loss, duplication or reordering on the read path; write_all/send_data emit DATA frames of at most write_frame_size <= 65535 bytes, so the length prefix is exact; "
+                   "holds before the next CLOSE) and leaves the rest pending -- no loss, duplication or reordering on the read path; write_all/send_data emit DATA frames of at most write_frame_size <= 65535 bytes, so the length prefix is exact, and "
+                   "(ghost sequence of bytes handed to the writer task) a successful write_all appends every byte of its argument, in order, "
+                   "to what was already sent or is still buffered; "
                    "Mux::verify accepts only configurations asking for at most 2^13 streams per direction, and spawn_streams -- whatever stream "
                    "counts the PEER announces in its handshake -- allocates ids that fit the 13-bit field (StreamId::new's assert!, the `as u16`) and creates per capability exactly "
                    "min(own limit, limit the peer announced, 0 if it announced none) reusable streams.",
